@@ -235,6 +235,12 @@ EncForwardOpen(fo) ==
 EncForwardOpenReply(fo, otapi, toapi) ==
   <<(IF IsLargeFO(fo.ot, fo.to) THEN 219 ELSE 212), 0, 0, 0>> \o fo.ot.id \o fo.to.id
   \o U16(fo.serial) \o U16(fo.vendor) \o fo.oserial \o otapi \o toapi \o <<0, 0>>
+\* replies carrying application reply data (USINT octets): size in 16-bit words, a reserved octet, the data padded to a whole word
+AppReply(app) == <<(Len(app) + 1) \div 2, 0>> \o app \o (IF Len(app) % 2 = 1 THEN <<0>> ELSE <<>>)
+EncForwardOpenReplyApp(fo, otapi, toapi, app) ==
+  <<(IF IsLargeFO(fo.ot, fo.to) THEN 219 ELSE 212), 0, 0, 0>> \o fo.ot.id \o fo.to.id
+  \o U16(fo.serial) \o U16(fo.vendor) \o fo.oserial \o otapi \o toapi \o AppReply(app)
+EncForwardCloseReplyApp(fo, app) == <<206, 0, 0, 0>> \o U16(fo.serial) \o U16(fo.vendor) \o fo.oserial \o AppReply(app)
 \* failure reply: status (+ extended words), serials, optionally the remaining path size
 EncForwardOpenFail(fo, st, ext) ==
   <<(IF IsLargeFO(fo.ot, fo.to) THEN 219 ELSE 212), 0>> \o EncStatus(st, ext) \o U16(fo.serial) \o U16(fo.vendor) \o fo.oserial
